@@ -1050,12 +1050,13 @@ class Exec:
                     for x in ast.walk(t):
                         if isinstance(x, ast.Name) and isinstance(x.ctx, ast.Store):
                             names.add(x.id)
-                        if isinstance(x, ast.Subscript):
-                            b = x.value
-                            while isinstance(b, (ast.Subscript, ast.Attribute)):
-                                b = b.value
-                            if isinstance(b, ast.Name):
-                                muts.add(b.id)
+                    # the container that a subscript / attribute target writes into (not names that merely occur in indices)
+                    for x in ([t] if not isinstance(t, (ast.Tuple, ast.List)) else list(t.elts)):
+                        b = x
+                        while isinstance(b, (ast.Subscript, ast.Attribute, ast.Starred)):
+                            b = b.value
+                        if isinstance(b, ast.Name) and b is not x:
+                            muts.add(b.id)
             if isinstance(n, ast.Call) and isinstance(n.func, ast.Attribute) and \
                     n.func.attr in ('append', 'extend', 'update', 'insert', 'pop', 'sort'):
                 b = n.func.value
